@@ -79,6 +79,10 @@ class PFlow(BaseRoutine):
         self.res = matrix(0, (system.dae.n + system.dae.m, 1), 'd')
         self.A = None
 
+        # factorizations cached by an earlier run may not fit: the non-zero
+        # pattern changes with the connection status of devices
+        self.solver.clear()
+
         self.niter = 0
         self.mis = [1]
         self.exec_time = 0.0
